@@ -18,6 +18,7 @@ fn main() {
     match args[1].as_str() {
         "c01" => chacha::drive_c01(&mut *out, seed, thorough),
         "stream-script" => chacha::run_script(&mut *out, arg(&args, "--script").expect("--script"), seed, true),
+        "stream-end64" => chacha::drive_end64(&mut *out, seed, thorough),
         "stream-rand" => chacha::drive_histories(&mut *out, seed, thorough, true),
         d => {
             eprintln!("unknown driver {}", d);
